@@ -50,8 +50,10 @@ def rand_schema(rng, depth, name, hostile, pools=None, top=False):
     r = rng.random()
     if depth <= 0 or (not top and r < 0.25):
         k = "s"
-    elif r < 0.55 or top and r < 0.65:
+    elif r < 0.55 or top and r < 0.70:
         k = "d"
+    elif top and r < 0.92:
+        k = "l"
     elif r < 0.75:
         k = "l"
     elif r < 0.82:
@@ -86,7 +88,7 @@ def instantiate(rng, s, maxlen=3):
         node["kids"] = [instantiate(rng, f, maxlen) for f in s["fields"]]
     elif k == "l":
         node["member"] = s["member"]
-        node["kids"] = [instantiate(rng, s["member"], maxlen) for _ in range(rng.choice([0, 1, 2, 2, 3, maxlen]))]
+        node["kids"] = [instantiate(rng, s["member"], maxlen) for _ in range(rng.choice([0, 1, 2, 2, 3, 3, maxlen]))]
     elif k in ("a", "m"):
         node["member"] = s["member"]
         node["kids"] = [instantiate(rng, s["member"], maxlen) for _ in range(rng.choice([0, 1, 2, 3, maxlen]))]
